@@ -63,8 +63,9 @@ PROPS = {
     'C08': dict(level='exploration', native=['native.c08'],
                 explanation="the statement is carried by a bounded run of the real BlockStore on real sqlite files (trees with "
                             "spends, forks, reorganisation; several flush batchings; reload by a new store after every flush), "
-                            "hence level `exploration`; alongside, structural scans of the row construction (every field "
-                            "written and read back, INSERT arity = schema, one transaction per flush). Known finding: the "
+                            "hence level `exploration`; alongside, the buffer side proved from source (append / flush / failure "
+                            "frame) and structural scans of the row construction (every field written and read back, INSERT "
+                            "arity = schema, one transaction per flush). Known finding: the "
                             "same transaction in two stored fork blocks"),
     'C15': dict(level='proof', native=['native.c15'],
                 explanation="contracts of the two key hand-out functions verified from source against the bookkeeping "
